@@ -206,38 +206,61 @@ package ipfix
 //@   ensures result1 == cacheHas(m, addr, id) && result == cacheGet(m, addr, id)
 //@   opt trustpost cacheHas/cacheGet are the abstract view of the cache; their relation to the shard maps is the subject of C04
 
-// ---- JSON encoding --------------------------------------------------------------------------------
+// ---- JSON encoding (C05) -----------------------------------------------------------------------------
+// b.js is the ghost JSON recogniser state of the buffer: phase Ph (0 value expected, 1 value or ']',
+// 2 key or '}', 3 key expected, 5 after a value, 8 document complete, 9 illegal) and the stack of open
+// containers (jstop: 1 object, 2 array).
+
+//@ pred jsKey(j ghost.JSON) = (j.Ph == 2 || j.Ph == 3) && jstop(j) == 1 && j.Dp >= 1 && j.Dp <= 2 && jscanon(j)
 
 //@ func (*Message).JSONMarshal
-//@   requires b != nil
+//@   requires b != nil && b.js.Ph == 0 && b.js.Dp == 0 && jssafe(m.AgentID)
+//@   ensures [valid] err == nil ==> b.js.Ph == 8
 //@   modifies b
 
 //@ func (*Message).encodeAgent
-//@   requires b != nil
+//@   requires b != nil && jsKey(b.js) && jssafe(m.AgentID)
+//@   ensures b.js == jsset(old(b.js), 3)
+//@   slot AgentID m.AgentID
 //@   modifies b
 
 //@ func (*Message).encodeHeader
-//@   requires b != nil
+//@   requires b != nil && jsKey(b.js)
+//@   ensures b.js == jsset(old(b.js), 3)
+//@   slot Version m.Header.Version
+//@   slot Length m.Header.Length
+//@   slot ExportTime m.Header.ExportTime
+//@   slot SequenceNo m.Header.SequenceNo
+//@   slot DomainID m.Header.DomainID
 //@   modifies b
 
 //@ func (*Message).encodeDataSet
-//@   requires b != nil
+//@   requires b != nil && jsKey(b.js)
+//@   ensures err == nil ==> b.js == jsset(old(b.js), 5)
+//@   slot I m.DataSets[i][j].ID
+//@   slot E m.DataSets[i][j].EnterpriseNo
 //@   modifies b
 //@   loop 1
-//@     invariant b != nil
+//@     invariant b != nil && dsLength == len(m.DataSets) && err == nil
+//@     invariant b.js == jsset(pre(b.js), range_i == 0 ? 1 : (range_i < len(m.DataSets) ? 0 : 5)) && pre(b.js).Dp >= 1 && pre(b.js).Dp <= 3 && jstop(pre(b.js)) == 2
 //@   loop 2
-//@     invariant b != nil && 0 <= i && i < len(m.DataSets)
+//@     invariant b != nil && 0 <= i && i < len(m.DataSets) && length == len(m.DataSets[i]) && dsLength == len(m.DataSets) && err == nil
+//@     invariant b.js == jsset(pre(b.js), range_i == 0 ? 1 : (range_i < len(m.DataSets[i]) ? 0 : 5)) && pre(b.js).Dp >= 1 && pre(b.js).Dp <= 4 && jstop(pre(b.js)) == 2
 
 //@ func (*Message).encodeDataSetFlat
 //@   requires b != nil
+//@   opt noverify flat encoding is not used by any worker
 //@   modifies b
-//@   loop 1
-//@     invariant b != nil
-//@   loop 2
-//@     invariant b != nil && 0 <= i && i < len(m.DataSets)
 
+// the value of one decoded field: a number for the numeric types (exact), quoted text otherwise
 //@ func (*Message).writeValue
 //@   requires b != nil && 0 <= i && i < len(m.DataSets) && 0 <= j && j < len(m.DataSets[i])
+//@   requires b.js.Ph == 0 && b.js.Dp >= 1 && b.js.Dp <= 5 && jscanon(b.js)
+//@   ensures [value] err == nil ==> b.js == jsset(old(b.js), 5)
+//@   exitassert [number] err == nil && iskind(m.DataSets[i][j].Value, int) && typeid(m.DataSets[i][j].Value) != tyof(float32) && typeid(m.DataSets[i][j].Value) != tyof(float64) ==> jsnum(jslast) && jsnumval(jslast) == anyint(m.DataSets[i][j].Value)
+//@   exitassert [address] err == nil && iskind(m.DataSets[i][j].Value, bytes) && typeid(m.DataSets[i][j].Value) == tyof(net.IP) ==> jslast == ipText(anybytes(m.DataSets[i][j].Value))
+//@   exitassert [mac] err == nil && iskind(m.DataSets[i][j].Value, bytes) && typeid(m.DataSets[i][j].Value) == tyof(net.HardwareAddr) ==> jslast == hwText(anybytes(m.DataSets[i][j].Value))
+//@   exitassert [octets] err == nil && iskind(m.DataSets[i][j].Value, bytes) && typeid(m.DataSets[i][j].Value) == tyof([]uint8) ==> jslast == strcat("0x", hexText(anybytes(m.DataSets[i][j].Value)))
 //@   modifies b
 
 // a cache that decoding can use without crashing, whatever file content it was loaded from (C11, C01)
